@@ -14,7 +14,7 @@ NOT_SHOWN = {
         "only ones the streams send) form a `Group Oct` acting on `V3 Int` by a `DistribMulAction` with exactly the driver's product / transpose / "
         "apply / ==, every model function is natural in the inclusion `Oct -> M3 Int` (tensor_at_Oct_eq_at_M3Int, getBH_at_Oct_eq_at_M3Int, "
         "Node.step_at_Oct_eq_at_M3Int, ...), and the headline theorems are restated for the `M3 Int` evaluation under the decidable hypothesis that "
-        "all rotation matrices of the input are octahedral (`*_on_driver_carrier` in Props/C03-C06, C09, C10). "
+        "all rotation matrices of the input are octahedral (`*_on_driver_carrier` in Props/C03-C07, C09, C10; the interface models Model/Iface and Model/DictIface are covered by Lemmas/OctaIface.lean; C05 `collection_is_sum_of_children_on_M3Int` even holds for arbitrary integer matrices). "
         "What REMAINS ASSUMED: (1) that scipy `Rotation` restricted to the 24 octahedral rotations composes / inverts / applies / compares like these "
         "integer matrices -- validated exactly (integer data, scipy results snapped to the grid by vlib/octa.py, compared for equality) by the level2, "
         "path and iface streams on the sampled inputs, not proved; (2) that for GENERAL rotations scipy `Rotation` is a group acting on R^3 up to "
